@@ -138,6 +138,9 @@ func (consumer *Consumer) retrieveAndSendMessage() {
 func (consumer *Consumer) Pause() {
 	consumer.statusLock.Lock()
 	defer consumer.statusLock.Unlock()
+	if consumer.status == stopped {
+		return
+	}
 	consumer.status = paused
 }
 
@@ -145,6 +148,9 @@ func (consumer *Consumer) Pause() {
 func (consumer *Consumer) UnPause() {
 	consumer.statusLock.Lock()
 	defer consumer.statusLock.Unlock()
+	if consumer.status == stopped {
+		return
+	}
 	consumer.status = started
 }
 
